@@ -117,6 +117,22 @@ theorem delivers_exactly_selected (orc : Oracle) (s : SState) (lv : LevelArg) (M
       simp only [Bool.and_eq_true, he, true_and, admitted, List.any_eq_true, decide_eq_true_eq]
       exact ⟨(id, hd), hm, ht⟩
 
+/-- the same on the MODEL (the code's caches, short-circuits and tables included), after EVERY history: a log
+call delivers to exactly the registered handlers the history spec selects -/
+theorem model_delivers_exactly_selected (orc : Oracle) (ops : List Op) (lv : LevelArg) (M : Option Str)
+    (lazy : Bool) (ids : List Nat) (k : Nat) :
+    let c := final orc Core.init ops
+    let s := finalS orc SState.init ops
+    c.handlers ≠ [] → (log orc c lv M lazy).2 = .delivered ids k →
+    ∃ no, levelNoS s.levels lv = .ok no ∧
+      ∀ id, id ∈ ids ↔ ∃ hd, (id, hd) ∈ c.handlers ∧ enabledS s.acts M = true ∧ hd.threshold ≤ no ∧
+        accepts orc hd.filter no M = true := by
+  intro c s hne h
+  have hs : Sim c s := final_sim orc ops sim_init idInv_init
+  rw [(log_sim orc hs lv M lazy).1] at h
+  rw [hs.handlers] at hne ⊢
+  exact delivers_exactly_selected orc s lv M lazy ids k hne h
+
 /-- after EVERY history: ids are fresh and strictly increasing in registration order, so a log call
 delivers in registration order, at most one message per handler, only to registered handlers -/
 theorem delivery_in_registration_order (orc : Oracle) (ops : List Op) (lv : LevelArg) (M : Option Str)
@@ -263,6 +279,158 @@ theorem stale_precolorized_formats_refuted :
     (log orc good (.int 25) (some "a".toList) false).2 = .delivered [0] 0 := by
   decide
 
+/-- **Overlapped calls.**  After EVERY history – log calls overlapped by a complete `enable()/disable()` of
+another thread included (`Op.logDuring`, both yield points) – a call that starts after the change returned
+follows the most recent `enable()/disable()`: nothing the overlapped reader wrote survives in the cache.
+(The overlapped call itself is judged by `dispatch_refines_spec`: old state at the rules-read point, new
+state at the early point.) -/
+theorem later_calls_follow_completed_change (orc : Oracle) (ops : List Op) (lv : LevelArg) (M : Option Str)
+    (lazy early : Bool) (p : Option Str) (st : Bool) (lv' : LevelArg) (M' : Option Str) (lazy' : Bool) :
+    let c := final orc Core.init ops
+    let s := finalS orc SState.init ops
+    let c' := (logDuring orc c lv M lazy early p st).1
+    (log orc c' lv' M' lazy').2 = sLog orc { s with acts := (p, st) :: s.acts } lv' M' lazy' ∧
+    (∀ e ∈ c'.enabled, e.2 = enabledS ((p, st) :: s.acts) e.1) := by
+  intro c s c'
+  have hs : Sim c s := final_sim orc ops sim_init idInv_init
+  have h := (logDuring_sim orc hs lv M lazy early p st).2
+  exact ⟨(log_sim orc h lv' M' lazy').1, h.cache⟩
+
+/-- **Refuting witness for the shape "re-read `core.enabled` after the rules were read"** (`core.enabled[name] =
+status` instead of filling the dict fetched before): one handler, a first log from `a.b` overlapped by a
+complete `disable("a")` right after the reader fetched the (empty) rule list.  With the refuted shape the
+reader stores `True` – computed from the old rules – in the dict the writer just published, and every later
+call from `a.b` is delivered although `disable("a")` returned long before; with the code's order it is not. -/
+theorem cache_fill_into_republished_dict_refuted :
+    let orc : Oracle := fun _ _ _ => true
+    let a := "a".toList; let ab := "a.b".toList; let info := LevelArg.name "INFO".toList
+    let c0 := final orc Core.init [.add ⟨.int 0, .none, false, false⟩]
+    let bad := (logDuringG false orc c0 info (some ab) false (some a) false).1
+    let good := (logDuringG true orc c0 info (some ab) false (some a) false).1
+    (log orc bad info (some ab) false).2 = .delivered [0] 0 ∧
+    (log orc good info (some ab) false).2 = .delivered [] 0 ∧
+    bad.enabled = [(some ab, true)] ∧ scan bad (some ab) = false ∧ good.enabled = [] := by
+  decide +kernel
+
+/-- **`add` dispatches on the class of its arguments the documented way.**  The `if/elif` chains over `filter`,
+over the values of a `filter={...}` dict and over `level` are regenerated from the source in source order and
+interpreted by the model (`mkFilterC`, `mkDictValC`, `mkThresholdC`); although Python's classes overlap
+(`""` is a `str`, `True`/`False` are `int`s, `builtins.filter` is callable) they denote the reading by disjoint
+kinds the spec uses: `""` is "any named module", not the package `""`; `True` is level 0 and `False` rejects,
+neither is the int 1 / 0; `builtins.filter` is refused, not taken for a user callable. -/
+theorem add_argument_dispatch (levels : List (Str × Int)) :
+    (∀ a, mkFilterC levels a = mkFilter levels a) ∧
+    (∀ v, mkDictValC levels v = mkDictVal levels v) ∧
+    (∀ l, mkThresholdC levels l = mkThreshold levels l) ∧
+    mkFilterC levels (.str []) = .ok .notNone ∧
+    mkDictValC levels .true = .ok (some 0) ∧ mkDictValC levels .false = .ok none ∧
+    (∃ e, mkFilterC levels .builtinFilter = .error e) :=
+  ⟨mkFilterC_eq levels, mkDictValC_eq levels, mkThresholdC_eq levels, rfl, rfl, rfl, ⟨_, rfl⟩⟩
+
+/-- **Level numbers are immutable.**  Whatever happens later (any continuation `ops'` of any history `ops`), a
+level name keeps the severity it had: `level()` creates, and updates colour/icon only.  Hence a handler's
+threshold given by NAME never drifts from the level, and a handler added WITHOUT `level=` (the default is
+regenerated from `_defaults.LOGURU_LEVEL` / `add`'s signature) always gets the threshold of `DEBUG` = 10. -/
+theorem level_numbers_are_immutable (orc : Oracle) (ops ops' : List Op) (n : Str) (v : Int) :
+    ((finalS orc SState.init ops).levels.lookup n = some v →
+      (finalS orc SState.init (ops ++ ops')).levels.lookup n = some v) ∧
+    mkThreshold (finalS orc SState.init ops).levels (.name Gen.addDefaultLevelName) = .ok 10 ∧
+    (final orc Core.init ops).levels = (finalS orc SState.init ops).levels := by
+  refine ⟨fun h => ?_, ?_, (final_sim orc ops sim_init idInv_init).levels⟩
+  · rw [finalS_append]; exact lv_final orc ops' h
+  · have h : (finalS orc SState.init ops).levels.lookup Gen.addDefaultLevelName = some 10 :=
+      lv_final orc ops (by decide)
+    simp only [mkThreshold, getLevel, h]
+    rfl
+
+/-- **`level()`: read, create, update.**  The outcome table `Gen.levelTable` is obtained by EXECUTING the body of
+`Logger.level` over the finite domain (kind of `no`) × (colour given) × (icon given) × (level exists); the model
+looks its decision up there (`levelDecisionC`), and it denotes the documented rules: with no other argument the
+call reads (unknown name: `ValueError`); a new name needs a non-negative int `no` (absent: `ValueError`, no int:
+`TypeError`, negative: `ValueError`); an existing level can only get a colour / an icon – its severity is kept,
+giving `no` again is a `ValueError`; a colour and an icon are not distinguished. -/
+theorem level_creates_or_updates (levels : List (Str × Int)) (name : Str) (no : NoArg) (other : Bool) :
+    levelDecisionC levels name no other = levelDecision levels name no other ∧
+    (∀ old, levels.lookup name = some old →
+      levelDecisionC levels name .none true = .ok (some old) ∧ levelDecisionC levels name .none false = .ok none ∧
+      ∀ i, levelDecisionC levels name (.int i) other = .error .valueError) ∧
+    (levels.lookup name = none →
+      levelDecisionC levels name .none other = .error .valueError ∧
+      levelDecisionC levels name .bad true = .error .typeError ∧
+      ∀ i, levelDecisionC levels name (.int i) other = if i < 0 then .error .valueError else .ok (some i)) ∧
+    (∀ k ∈ [0, 1, 2, 3], ∀ c i e : Bool,
+      Gen.levelTable.lookup (k, c, i, e) = Gen.levelTable.lookup (k, c || i, false, e)) := by
+  refine ⟨levelDecisionC_eq _ _ _ _, fun old h => ?_, fun h => ?_, levelTable_symmetric⟩
+  · simp only [levelDecisionC_eq, levelDecision, h]
+    refine ⟨by simp, by simp, fun i => ?_⟩
+    cases other <;> simp
+  · simp only [levelDecisionC_eq, levelDecision, h]
+    refine ⟨by cases other <;> simp, by simp, fun i => ?_⟩
+    cases other <;> simp [Gen.levelRejectsNo]
+
+/-- **`add` is all-or-nothing.**  In any state: a call that raises (no sink, unknown keyword, malformed filter or
+level) takes an id and changes NOTHING else – registry, `min_level`, caches, levels; a call that returns
+registers exactly one handler, last in the registry, under the id it returns, which is the number of `add`
+calls made before. -/
+theorem add_all_or_nothing (c : Core) (a : AddArgs) :
+    (∀ e, (add c a).2 = .err e → (add c a).1 = { c with handlersCount := c.handlersCount + 1 }) ∧
+    (∀ n, (add c a).2 = .id n → n = c.handlersCount ∧ (add c a).1.handlersCount = c.handlersCount + 1 ∧
+       ∃ hd, (add c a).1.handlers = c.handlers ++ [(n, hd)]) ∧
+    ((∃ e, (add c a).2 = .err e) ∨ (∃ n, (add c a).2 = .id n)) ∧
+    (prim (fun _ _ _ => true) c .addBad).1 = { c with handlersCount := c.handlersCount + 1 } := by
+  have key : (∃ e, add c a = ({ c with handlersCount := c.handlersCount + 1 }, .err e)) ∨
+      (∃ hd c', add c a = (c', .id c.handlersCount) ∧ c'.handlersCount = c.handlersCount + 1 ∧
+        c'.handlers = c.handlers ++ [(c.handlersCount, hd)]) := by
+    unfold add
+    simp only
+    cases mkFilterC c.levels a.filter with
+    | error e => exact Or.inl ⟨e, rfl⟩
+    | ok f =>
+      cases mkThresholdC c.levels a.level with
+      | error e => exact Or.inl ⟨e, rfl⟩
+      | ok t => exact Or.inr ⟨_, _, rfl, rfl, rfl⟩
+  rcases key with ⟨e, he⟩ | ⟨hd, c', he, h1, h2⟩
+  · rw [he]
+    exact ⟨fun _ _ => rfl, fun n h => (by cases h), Or.inl ⟨e, rfl⟩, rfl⟩
+  · rw [he]
+    refine ⟨fun e h => (by cases h), fun n h => ?_, Or.inr ⟨_, rfl⟩, rfl⟩
+    simp only [Out.id.injEq] at h
+    subst h
+    exact ⟨rfl, h1, hd, h2⟩
+
+/-- **Refuting witness for the order "isinstance(level_, int) before the `is True` test"** in the dict branch:
+`True` would be kept as the int 1 instead of level 0 – `{"a": True}` ("everything from `a`") would reject the
+records of severity 0; (`False` survives such a reordering only because the assignment keeps the object and
+`filter_by_level` tests `level is False` by identity). -/
+theorem bool_tested_after_int_refuted :
+    let swapped : List (Gen.VTest × Gen.VAct) :=
+      [(.isFalse, .reject), (.isStr, .levelByName), (.isInt, .intValue), (.isTrue, .const 0)]
+    let rd := fun v => actV [] (firstAct swapped Gen.VAct.typeError (fun t => holdsV t v)) v
+    rd .true = .ok (some 1) ∧ rd .false = .ok none ∧
+    accepts (fun _ _ _ => true) (.byLevel [(some "a".toList, some 1)]) 0 (some "a".toList) = false ∧
+    mkDictValC [] .true = .ok (some 0) ∧
+    accepts (fun _ _ _ => true) (.byLevel [(some "a".toList, some 0)]) 0 (some "a".toList) = true := by
+  intro swapped rd
+  exact ⟨rfl, rfl, by decide, rfl, by decide⟩
+
+/-- **`configure` is its call sequence.**  The order of `configure`'s statements is regenerated from the source
+(`Gen.configureOrder`) and is the documented one: `remove()` first when handlers are given, then the levels,
+then the enable/disable calls in list order, the handlers LAST; and a `configure` call – from ANY state –
+leaves exactly the state of a prefix of that sequence of plain calls: the whole sequence when it returns, the
+calls up to and including the first failing one when it raises (it is not atomic). -/
+theorem configure_is_its_call_sequence (orc : Oracle) (c : Core) (h : Option (List AddArgs))
+    (l : List (Str × NoArg × Bool)) (a : List (Option Str × Bool)) :
+    expand h l a = expandS h l a ∧
+    ∃ k, k ≤ (expandS h l a).length ∧
+      (step orc c (.configure h l a)).1 = final orc c ((expandS h l a).take k) ∧
+      ((∀ e, (step orc c (.configure h l a)).2 ≠ .err e) → k = (expandS h l a).length) := by
+  refine ⟨expand_eq h l a, ?_⟩
+  show ∃ k, k ≤ (expandS h l a).length ∧
+      (runBatch (prim orc) c (expand h l a) []).1 = final orc c ((expandS h l a).take k) ∧
+      ((∀ e, (runBatch (prim orc) c (expand h l a) []).2 ≠ .err e) → k = (expandS h l a).length)
+  rw [expand_eq]
+  exact runBatch_final orc (expandS h l a) c [] (expandS_isCall h l a)
+
 /-- `filter="p"` (`p ≠ ""`): the handler accepts the record iff its module is `p` or inside package `p`
 (`a.b` does not admit `a.bc`; `None` is never accepted) -/
 theorem filter_by_name_iff_package (levels : List (Str × Int)) (orc : Oracle) (p : Str) (hp : p ≠ []) (no : Int) :
@@ -294,6 +462,47 @@ theorem filter_by_level_closest_parent (tbl : List (Option Str × Option Int)) (
   | some v => cases v with
     | none => rfl
     | some lv => simp only [entryDecides, levelAdmits_eq]
+
+/-- **The filters, declaratively.**  For every filter `add` registers (`WFFilter`: what `mkFilter` builds), the
+code's evaluation – the slice kernel of `filter_by_name`, the `rfind` loop of `filter_by_level` with its fuel –
+IS the declarative reading `acceptsD`: `p` accepts the module `p` and the modules inside package `p`; a dict
+follows the entry of the LONGEST key naming the module or a parent (`closest`, a plain recursion over the
+table); and `closest` is characterised: it returns a `ClosestEntry`, and `none` only if no key names the module. -/
+theorem filter_meaning_is_declarative (orc : Oracle) (f : Filter) (hf : WFFilter f) (no : Int) (M : Option Str)
+    (tbl : List (Option Str × Option Int)) (N : Str) :
+    accepts orc f no M = acceptsD orc f no M ∧
+    (∀ k v, closest tbl N = some (k, v) → ClosestEntry tbl N k v) ∧
+    (closest tbl N = none → ∀ k, pkgParent k N = true → tbl.lookup (some k) = none) ∧
+    (∀ levels a g, mkFilter levels a = .ok g → WFFilter g) :=
+  ⟨accepts_eq_acceptsD orc f hf no M, (closest_spec tbl N).1, (closest_spec tbl N).2, fun _ _ _ h => mkFilter_wf h⟩
+
+/-- **The property end to end against the declarative reading.**  After EVERY history every registered handler
+holds a filter of the shape `add` builds, and a log call on the MODEL (caches, short-circuits, kernels, loops
+and all) yields: nothing when nothing is registered; the error of an unknown level; otherwise – iff the module is
+enabled by the most recent relevant `enable()/disable()` and some threshold admits the severity – one message to
+each registered handler, in registration order, whose threshold is at or below the severity and whose filter
+accepts in the DECLARATIVE sense (`deliverD`: no slice kernel, no loop, no fuel, no cache). -/
+theorem dispatch_is_declarative (orc : Oracle) (ops : List Op) (lv : LevelArg) (M : Option Str) (lazy : Bool) :
+    let c := final orc Core.init ops
+    let s := finalS orc SState.init ops
+    FInv s ∧
+    (log orc c lv M lazy).2 =
+      (if s.regs.isEmpty then .delivered [] 0 else
+       match levelNoS s.levels lv with
+       | .error e => .err e
+       | .ok no => if enabledS s.acts M && admitted s no then .delivered (deliverD orc s no M) (lazyCount lazy)
+                   else .delivered [] 0) := by
+  intro c s
+  have hs : Sim c s := final_sim orc ops sim_init idInv_init
+  have hf : FInv s := fInv_final orc ops fInv_init
+  refine ⟨hf, ?_⟩
+  rw [(log_sim orc hs lv M lazy).1]
+  unfold sLog
+  split
+  · rfl
+  · cases levelNoS s.levels lv with
+    | error e => rfl
+    | ok no => simp only [sLogTail, deliverS_eq_deliverD orc hf]
 
 /-- the closest entry is unique: two keys that both name `M` or a parent and have equal length coincide,
 so "the longest" is well defined -/
@@ -352,6 +561,39 @@ example :
        .log (.int 5) (some "a".toList) true, .removeAll, .log (.int 50) none true]
     = [.id 0, .id 1, .err .osError, .delivered [] 0, .delivered [1] 1, .id 2, .id 3, .err .osError,
        .delivered [3] 1, .ok, .delivered [] 0] := by decide
+
+/-- overlapped calls through the whole machine: first log from `a.b` overlapped by `disable("a")` at the
+rules-read point (delivered by the old rules, nothing cached), the next call is not delivered; then a log
+overlapped early by `enable("a.b")` is delivered, as is the next -/
+example :
+    let a := "a".toList; let ab := "a.b".toList; let info := LevelArg.name "INFO".toList
+    run (fun _ _ _ => true) Core.init
+      [.add ⟨.int 0, .none, false, false⟩, .logDuring info (some ab) true false (some a) false,
+       .log info (some ab) true, .logDuring info (some ab) true true (some ab) true, .log info (some ab) false]
+    = [.id 0, .delivered [0] 1, .delivered [] 0, .delivered [0] 1, .delivered [0] 0] := by decide +kernel
+
+/-- `configure`: a handler may name a level declared by the same call (levels precede handlers); a call that
+fails half-way keeps what it had done – the old handlers are gone, the level exists -/
+example :
+    let new := "NEW".toList
+    run (fun _ _ _ => true) Core.init
+      [.add ⟨.int 0, .none, false, false⟩,
+       .configure (some [⟨.name new, .none, false, false⟩]) [(new, .int 33, false)] [(some "a".toList, false)],
+       .log (.int 33) (some "b".toList) false, .log (.int 33) (some "a".toList) false,
+       .configure (some [⟨.int 0, .none, false, false⟩]) [("N2".toList, .int 7, false), (new, .int 34, false)] [],
+       .log (.int 50) (some "b".toList) true, .level "N2".toList .none false]
+    = [.id 0, .ids [1], .delivered [1] 0, .delivered [] 0, .err .valueError, .delivered [] 0, .ok] := by decide +kernel
+
+/-- the declarative reading, concretely: {"": False, "a": 30, "a.b": False} – `closest` picks `a` for `a.bc`,
+`a.b` for `a.b.c`, `""` for `b`; a name filter `a.b` does not admit `a.bc` -/
+example :
+    let tbl := [(some "".toList, none), (some "a".toList, some 30), (some "a.b".toList, none)]
+    closest tbl "a.bc".toList = some ("a".toList, some 30) ∧ closest tbl "a.b.c".toList = some ("a.b".toList, none) ∧
+    closest tbl "b".toList = some ("".toList, none) ∧ closest [(some "a".toList, some 30)] "ab".toList = none ∧
+    acceptsD (fun _ _ _ => true) (.byName "a.b.".toList 4) 0 (some "a.bc".toList) = false ∧
+    acceptsD (fun _ _ _ => true) (.byName "a.b.".toList 4) 0 (some "a.b.c".toList) = true ∧
+    WFFilter (.byName "a.b.".toList 4) := by
+  refine ⟨by decide, by decide, by decide, by decide, by decide, by decide, ⟨"a.b".toList, by decide, by decide, by decide⟩⟩
 
 example : Sim Core.init SState.init := sim_init
 
